@@ -158,15 +158,24 @@ fn check_scene(stats: &mut Stats, rng: &mut Rng, paths: &Vec<P>, width: usize, h
     cols.extend(tangent_xs.iter().cloned());
     for _ in 0..n_random { cols.push(rng.i(width as u64 + 1) as f64); cols.push(rng.r(0.0, width as f64)); }
     for x in &cols { check_scan(stats, rng, &sc, &contour, &tcontour, *x, &classify(&tcs, &tangent_xs, *x, "x", "vertical"), true, &detail); }
-    // contour_point_is_inside at integer positions
+    // contour_point_is_inside at integer positions: 10 anywhere, and up to 10 in the second or a later range of a row with several ranges
+    let mut positions: Vec<(usize, usize)> = (0..10).map(|_| (rng.i(width as u64) as usize, rng.i(height as u64) as usize)).collect();
     for _ in 0..10 {
-        let (x, y) = (rng.i(width as u64) as usize, rng.i(height as u64) as usize);
+        let y = rng.i(height as u64) as usize;
+        let ranges = contour.intercepts_on_line(y as f64);
+        if ranges.len() >= 2 {
+            let r = &ranges[1 + rng.i(ranges.len() as u64 - 1) as usize];
+            let x = ((r.start + r.end) * 0.5).round();
+            if x >= 0.0 && (x as usize) < width { positions.push((x as usize, y)); stats.count("point_is_inside_in_later_range"); }
+        }
+    }
+    for (x, y) in positions {
         let p = Coord2(x as f64, y as f64);
         if dist_polys(p, &sc.fine) <= EDGE_MARGIN + SLACK { stats.excluded += 1; stats.count("excluded.sample_within_0.05_of_edge"); continue; }
         let want = evenodd(p, &sc.fine);
         if let Some(got) = run_caught(stats, PROP, "contour_point_is_inside", &detail, || contour_point_is_inside(&contour, ContourPosition(x, y))) {
             stats.count("point_is_inside_evaluated");
-            if got != want { stats.fail(PROP, "point_is_inside.integer_position", &format!("contour_point_is_inside({}, {}) = {} expected {} intercepts_on_line({}) = {:?} {}", x, y, got, want, y, contour.intercepts_on_line(y as f64), detail())); }
+            if got != want { stats.fail(PROP, &format!("point_is_inside.{}", classify(&cs, &tangent_ys, y as f64, "y", "horizontal")), &format!("contour_point_is_inside({}, {}) = {} expected {} intercepts_on_line({}) = {:?} {}", x, y, got, want, y, contour.intercepts_on_line(y as f64), detail())); }
         }
     }
 }
